@@ -144,7 +144,28 @@ func H_C15_history() {
 	for s := 0; s < k; s++ {
 		p := "op" + itoa(s)
 		tag := "after " + p
-		switch verif.Choice(p+".kind", 8) {
+		switch verif.Choice(p+".kind", 9) {
+		case 8: // the root (or an ancestor) stored below itself through intermediate names that do not exist yet
+			snapshot := model.clone()
+			if verif.Choice(p+".what", 2) == 0 {
+				verif.Assert(c.SetChild("n.m", -1, c, ucfg.PathSep(".")) == nil, "C15/storing the root below itself accepted")
+				if n := model.get("n"); n != nil && n.Kind == kCfg {
+					n.set("m", snapshot)
+				} else {
+					model.set("n", nDict().set("m", snapshot))
+				}
+			} else {
+				h, err := c.Child("l", -1)
+				verif.Assume(err == nil)
+				verif.Assert(h.SetChild("", 0, c) == nil, "C15/storing the root in its own list accepted")
+				l := model.get("l")
+				if len(l.List) == 0 {
+					l.List = append(l.List, snapshot)
+				} else {
+					l.List[0] = snapshot
+				}
+			}
+			verif.Reach("stored below itself")
 		case 6: // the config merged into itself (all policies): the operands are the config and the config
 			pol := verif.Choice(p+".pol", nPolicies)
 			verif.Assert(c.Merge(c, polOpts(pol)...) == nil, "C15/self merge accepted")
